@@ -37,6 +37,9 @@ type Timer struct {
 	// This ensures that we do not schedule the timer again if the ScheduleRepeating
 	// callback cancelled the timer.
 	cancelled bool
+	// cancels counts successful Cancel calls. A repeating schedule stops if it was cancelled while its callback ran,
+	// even if the callback then scheduled something else (which clears cancelled).
+	cancels uint64
 }
 
 func NewTimer(ioc *IO) (*Timer, error) {
@@ -94,8 +97,9 @@ func (t *Timer) ScheduleRepeating(repeat time.Duration, cb func()) error {
 	} else {
 		var ccb func()
 		ccb = func() {
+			cancelsBefore := t.cancels
 			cb()
-			if t.cancelled {
+			if t.cancelled || t.cancels != cancelsBefore {
 				t.cancelled = false
 			} else {
 				// TODO this error should not be ignored
@@ -119,6 +123,7 @@ func (t *Timer) Cancel() error {
 	err := t.it.Unset()
 	if err == nil {
 		t.cancelled = true
+		t.cancels++
 		t.state = stateReady
 	}
 	return err
